@@ -35,16 +35,24 @@ _KNOWN: Optional[Set[str]] = None
 
 
 def known_names() -> Set[str]:
-  """Identifiers that appear in the rule modules (anchors, helper names)."""
+  """Identifiers the rule modules name code by: the words of their string
+  constants that are written like code (no blanks - qualified names, function
+  names, attribute names), not the prose of their messages."""
   global _KNOWN
   if _KNOWN is None:
     here = os.path.dirname(os.path.abspath(__file__))
-    txt = ''
+    out: Set[str] = set()
     for p in glob.glob(os.path.join(here, 'rules', '*.py')) + [
-        os.path.join(here, 'own.py'), os.path.join(here, 'callgraph.py')]:
+        os.path.join(here, 'own.py'), os.path.join(here, 'callgraph.py'),
+        os.path.join(here, 'model.py')]:
       with open(p) as f:
-        txt += f.read()
-    _KNOWN = set(re.findall(r'[A-Za-z_][A-Za-z0-9_]*', txt))
+        tree = ast.parse(f.read())
+      for n in ast.walk(tree):
+        if isinstance(n, ast.Constant) and isinstance(n.value, str):
+          v = n.value
+          if v and not any(ch.isspace() for ch in v):
+            out.update(re.findall(r'[A-Za-z_][A-Za-z0-9_]*', v))
+    _KNOWN = out
   return _KNOWN
 
 
@@ -199,8 +207,15 @@ def eligible(h, generator: bool = False, nested_ok: bool = False,
     return False  # nested functions are expanded only inside their parent
   if h.cls is not None and not (n.args.args and n.args.args[0].arg == 'self'):
     return False
-  if n.decorator_list or n.args.vararg or n.args.kwarg:
+  if n.decorator_list or n.args.kwarg:
     return False
+  if n.args.vararg:
+    # *args is fine where it is only handed on (`g(x, *args)`, `(*args,)`)
+    va = n.args.vararg.arg
+    starred = {id(x.value) for x in ast.walk(n) if isinstance(x, ast.Starred)}
+    if any(isinstance(x, ast.Name) and x.id == va and id(x) not in starred
+           for x in ast.walk(n)):
+      return False
   if h.name in known_names() or h.name.lstrip('_') in known_bare_names():
     return False  # an anchor, possibly (un)privatised
   if not h.name.startswith('_') and not nested_ok and not (
@@ -245,7 +260,12 @@ def _bind(h, call) -> Optional[Dict[str, ast.expr]]:
                         ast.Await)) for x in ast.walk(call)):
     return None  # lambdas are indexed by node identity; keep them in place
   if len(call.args) > len(params):
-    return None
+    if a.vararg is None:
+      return None
+    out[a.vararg.arg] = ast.Tuple(elts=list(call.args[len(params):]),
+                                  ctx=ast.Load())
+  elif a.vararg is not None:
+    out[a.vararg.arg] = ast.Tuple(elts=[], ctx=ast.Load())
   for p_, v in zip(params, call.args):
     out[p_] = v
   for k in call.keywords:
